@@ -2,6 +2,7 @@ import Driver.C11Mon
 import OidcModel.Generated.AuthResponse
 import OidcModel.Generated.AuthError
 import OidcModel.Generated.RequestObject
+import OidcModel.Model.C11ErrVal
 open Kv
 
 /-! C11 model driver: recomputes the Location value / the HTML page with the regenerated model and compares
@@ -144,10 +145,27 @@ def parModelOK (l : Line) : Bool :=
   let heapOK := !bool l "par.h" || r.1 0 == (bytesOf l "par.h1", bytesOf l "par.h1s")
   sentOK && heapOK && progs.all (fun p => p.all fun o => match o with | .unsupported _ => false | _ => true)
 
+/-- kinds `error` / `tryerror` (AuthRequestError / TryErrorRedirect called directly, also the length cases): the REGENERATED statement
+    list of the function is run on the VALUE of the error that was handed in (`p`: code and description as the error value says) with the
+    request's state / session_state as the assigned values (`C11.ErrVal.exec`); the error it hands to the encoder must be what the
+    encoder recorded (`e`, or `p` when nothing differs): code, description, state, session_state -/
+def errValOK (l : Line) : Bool :=
+  if str l "kind" != "error" && str l "kind" != "tryerror" then true else
+  if str l "obs" != "redirect" then true else
+  let prog := if str l "kind" == "tryerror" then GenErr.tryErrorRedirectProgram else GenErr.authRequestErrorProgram
+  let p := (parseInput l).params
+  let enc := if has l "e" then pairsOf (list l "e") else p
+  let get (ps : List (UA.Bytes × UA.Bytes)) (k : String) : UA.Bytes := (UA.valuesOf k.toUTF8.toList ps).headD []
+  let e0 : C11.ErrVal.EObj := { ty := get p "error", desc := get p "error_description" }
+  let v : Nat → C11.ErrVal.EObj → C11.ErrVal.EObj := fun _ o => { o with state := get p "state", sess := get p "session_state" }
+  match C11.ErrVal.exec v prog 0 e0 none with
+  | some s => s.ty == get enc "error" && s.desc == get enc "error_description" && s.state == get enc "state" && s.sess == get enc "session_state"
+  | none => false
+
 def step (l : Line) : String :=
   let m := model l
   let hyp := parseHypOK l
-  let agree := observedOutcome l == some m && hyp && sourceModelOK l && parModelOK l
+  let agree := observedOutcome l == some m && hyp && sourceModelOK l && parModelOK l && errValOK l
   s!"case={str l "case"} class={classOf l} model={showOutcome m} observed={str l "obs"} monitor={showMon (monitorLine l)} hyp={if hyp then 1 else 0} agree={if agree then 1 else 0}"
 
 end Drv.C11
